@@ -260,6 +260,10 @@ def run(prop, seed, budget, ctx):
     af, an, ad, ah = agg_validators.run_part(seed, budget)
     failures += af; distinct |= ad; n3 += an
     for k_, v_ in ah.items(): hist[k_] += v_
+    import corners7
+    cf_, cn_, cd_, ch_ = corners7.run_part("C10", seed, budget)
+    failures += cf_; distinct |= cd_; n3 += cn_
+    for k_, v_ in ch_.items(): hist[k_] += v_
     for f in failures: hist["fail:" + f["why"][0] if isinstance(f["why"], list) else "fail:K"] += 1
     return {"evaluations": n + n2 + n3, "distinct_nontrivial": len(distinct),
             "rule": "part 1: lists of 1-5 real Validator objects over 4 fields (dependency sets, field=, discard= / empty discard, pass / fail) run by "
